@@ -66,6 +66,13 @@ RULE = ("random sequences of ask / ask_dqd / tell / tell_dqd calls (about 30 % o
         "length but NaN / inf in objective, measures or the Jacobian; wrong inner shape of measures, the Jacobian or "
         "an extra field) anywhere in the sequence, followed by calls of either kind; "
         "pickle round trips and deep copies of the scheduler at generated protocol positions (between ask and tell, between ask_dqd and tell_dqd, after tell), the run continuing on the restored object; a stratum with two or three schedulers alive at once (own archives, own spies, own batch sizes) whose calls are interleaved, each judged by its own oracle state and model instance; "
+        "tells that forward a whole evaluation record including a `solution` entry of the right length (tell(**record) "
+        "with the caller's shifted / reversed / zeroed / rounded copy of what ask returned); a large-batch stratum "
+        "(oracle only, no lock step): 1-6 emitters whose batch sizes sum to 4097..20000 rows (also 2^10..2^14 -1/+0/+1, "
+        "and small totals) on the 4x4 grid / threshold grid / proximity archives, every emitter's add feedback and both "
+        "archives' contents compared with ONE add of the evaluated batch (add_mode='single': the rows one by one, 0..800 "
+        "rows) on a deep copy of the archives taken before the call, and tells rejected for one non-finite value at the "
+        "head / tail / a block or emitter border / anywhere in the batch, followed by further rounds; "
         "every case is run a second time in the other add mode for the archive-contents comparison. A case "
         "is non-trivial when an accepted tell routes rows of at least two emitters with unequal batch sizes, or "
         "contains a rejected call made after rows were inserted; counted once per distinct op list")
@@ -100,6 +107,11 @@ ASSUMPTIONS = [
     "pending in either reading. The Lean model mirrors the code (pending ask consumed)",
     "documented reading, not a violation: in add_mode='single' with zero rows in total the emitters receive "
     "add_info == {} (no keys) while batch mode hands out empty arrays; C04 is about rows and there are none",
+    "a `solution` entry among the keyword fields of tell / tell_dqd (right length) does not replace the solutions "
+    "handed out by ask: archives and emitters receive the rows the emitters generated",
+    "large-batch stratum: 'the archive's add feedback' of a tell is what ONE archive.add of the whole evaluated batch "
+    "returns (add_mode='single': what add_single returns row by row) on the archive as it was before the call, "
+    "whatever the number of rows; Scheduler.emitters is the caller's list by documentation, so it is not mutated here",
     "dtypes: what an archive is handed is compared with what was told in that archive's own dtype (an early cast to "
     "the receiving archive's dtype is harmless); what an emitter is handed must be exactly what was told, value and "
     "dtype; what an archive stores must be the told value cast once to that archive's dtype",
@@ -497,6 +509,15 @@ def gen_with(kind, rng, long=False):
             ops.append({"op": rng.choice(["pickle", "pickle", "deepcopy"])})
     if rng.random() < 0.12:
         ops.append(bad_op(phase))
+    # the caller forwards a complete evaluation record, `scheduler.tell(**record)`, whose keys collide with a name the
+    # scheduler owns: a `solution` entry of the right length (the caller's own post-processed copy of what ask
+    # returned).  The rows routed to archives and emitters must stay the ones the emitters generated.
+    # (drawn from a derived generator after everything else, so that the op lists themselves are unchanged)
+    rr = random.Random(rng.randrange(1 << 30))
+    p_rec = rr.choice([0.0, 0.0, 0.25, 0.6])
+    for op in ops:
+        if op["op"] in ("tell", "telldqd") and rr.random() < p_rec:
+            op["record"] = rr.choice(["shifted", "reversed", "zeros", "rounded"])
     case["ops"] = ops
     return case
 
@@ -657,6 +678,14 @@ def _run_mode_co(case, mode, drv):
                 if case["extra"]:
                     args["tag"], args["vec"] = ev["tag"], ev["vec"]
                 jac = ev["jacobian"]
+                if op.get("record") and not bad:
+                    # tell(**record): the record carries the caller's own copy of the solutions under `solution`
+                    mine = np.concatenate(pending[2], axis=0).reshape(-1, SOLDIM) if pending is not None and \
+                        pending[2] else np.zeros((0, SOLDIM))
+                    args["solution"] = {"shifted": mine * 0.5 + 100.0, "reversed": mine[::-1].copy(),
+                                        "zeros": np.zeros_like(mine), "rounded": np.round(mine / 3.0, 2)}[op["record"]]
+                    if drv is not None:
+                        stat(f"tell:record-with-solution-key:{op['record']}")
                 if bad:
                     w = op["which"]
                     if w != "jacobian" and (w not in args or args[w] is None):
@@ -1056,6 +1085,345 @@ def run_multi(case):
             d.close()
 
 
+# ---------------------------------------------------------------------------
+# large batches: oracle only (no lock step).  Every emitter's add feedback and both archives' contents are compared
+# with ONE `add` of the whole evaluated batch (add_mode='single': with the rows added one by one) on a deep copy of the
+# archive taken just before the call.
+
+
+def split_total(rng, total, k):
+    """`total` rows over `k` emitters, unequal, now and then an emitter without rows"""
+    w = [0.0 if (k > 1 and rng.random() < 0.15) else rng.random() + 0.05 for _ in range(k)]
+    if sum(w) == 0:
+        w[rng.randrange(k)] = 1.0
+    ns = [int(total * x / sum(w)) for x in w]
+    ns[max(range(k), key=lambda i: w[i])] += total - sum(ns)
+    return ns
+
+
+def gen_large(rng):
+    kind = rng.choice(["grid", "grid", "cmamae", "proximity"])
+    k = rng.choice([1, 2, 2, 3, 3, 4, 6])
+    emitters = [{"dqd": rng.random() < 0.6} for _ in range(k)]
+    mode = rng.choice(["batch", "batch", "batch", "single"])
+    case = {"archive": kind, "mode": mode, "result": rng.random() < 0.6, "extra": rng.random() < 0.4,
+            "emitters": emitters, "large": True}
+    if rng.random() < 0.4:
+        names = ["f64", "f32", "dict32", "dictA", "dictB"]
+        case["dtype"] = {"main": rng.choice(names), "result": rng.choice(names)}
+        case["xdtype"] = {w: [rng.choice(["i64", "i32"]), rng.choice(["f64", "f32"])] for w in ("main", "result")}
+    ndqd = sum(e["dqd"] for e in emitters)
+    ops = []
+    for _ in range(rng.randint(2, 3)):
+        dqd = ndqd > 0 and rng.random() < 0.4
+        if mode == "single":  # row by row: thousands of add_single calls per archive and reference
+            total = rng.choice([rng.randint(0, 40), rng.randint(200, 800)])
+        else:
+            total = rng.choice([rng.randint(4097, 9000), rng.randint(4097, 9000), rng.randint(5000, 20000),
+                                2**rng.randint(10, 14) + rng.choice([-1, 0, 1, 1]), rng.randint(1, 300)])
+        who = [i for i, e in enumerate(emitters) if e["dqd"]] if dqd else list(range(k))
+        part = split_total(rng, total, len(who))
+        ns = [0] * k
+        for i, n in zip(who, part):
+            ns[i] = n
+        if dqd:  # what a non-DQD emitter is configured to emit does not matter in ask_dqd
+            ns = [n if e["dqd"] else rng.randint(0, 50) for n, e in zip(ns, emitters)]
+        ops.append({"op": "askdqd" if dqd else "ask", "ns": ns})
+        if rng.random() < 0.3:
+            # a rejected tell in between: one non-finite value anywhere in the batch (head, tail, past the rows of the
+            # first emitter, around block borders); the run goes on afterwards
+            ops.append({"op": "telldqdbad" if dqd else "tellbad", "seed": rng.randrange(1 << 30),
+                        "fault": rng.choice(["nan", "inf"]),
+                        "which": rng.choice(["measures", "objective"] + (["jacobian"] if dqd else [])),
+                        "rowsel": rng.choice(["head", "tail", "any", "any", "border"]), "u": rng.random()})
+            ops.append({"op": "askdqd" if dqd else "ask", "ns": ns})
+        ops.append({"op": "telldqd" if dqd else "tell", "seed": rng.randrange(1 << 30)})
+    case["ops"] = ops
+    return case
+
+
+def nontrivial_large(case):
+    """an accepted tell with more rows than any power-of-two block up to 4096, routed to at least two emitters"""
+    for op in case["ops"]:
+        if op["op"] in ("ask", "askdqd"):
+            ns = [n for n, e in zip(op["ns"], case["emitters"]) if op["op"] == "ask" or e["dqd"]]
+            if sum(ns) > 4096 and sum(1 for n in ns if n > 0) >= 2:
+                return True
+    return False
+
+
+def large_eval(seed, it, n, with_obj):
+    r = np.random.default_rng(seed)
+    return {
+        # objectives drift upwards along the batch: late rows tend to beat early rows of the same cell
+        "objective": (r.random(n) * 3.0 + np.linspace(0.0, 1.0, n)) if with_obj else None,
+        "measures": r.uniform(0.0, 4.0, size=(n, MDIM)),
+        "tag": (np.arange(n) + it * 100000).astype(np.int64),
+        "vec": r.normal(size=(n, 2)),
+        "jacobian": r.normal(size=(n, 1 + MDIM, SOLDIM)),
+    }
+
+
+def _same(a, b, dtype=True):
+    a, b = np.asarray(a), np.asarray(b)
+    if a.shape != b.shape or (dtype and a.dtype != b.dtype):
+        return False
+    if a.dtype.kind == "f":
+        return bool(np.all((a == b) | (np.isnan(a) & np.isnan(b))))
+    return bool(np.array_equal(a, b))
+
+
+def _contents(arch):
+    d = arch.data()
+    order = np.argsort(d["index"], kind="stable")
+    return {k_: np.asarray(v)[order] for k_, v in d.items()}
+
+
+def _same_contents(a, b):
+    return sorted(a) == sorted(b) and all(_same(a[k_], b[k_]) for k_ in a)
+
+
+def _bucket(n):
+    for hi in (0, 64, 1024, 4096, 8192):
+        if n <= hi:
+            return f"<={hi}"
+    return ">8192"
+
+
+def run_large(case):
+    mode = case["mode"]
+    sched, archive, result, spies, log = build(case, mode)
+    k = len(spies)
+    with_obj = case["archive"] != "proximity"
+    legal = {"none": ("ask", "askdqd"), "tell": ("ask", "askdqd"), "telldqd": ("ask", "askdqd"),
+             "ask": ("tell",), "askdqd": ("telldqd",)}
+    phases = {"none"}  # protocol states the property allows (two readings after a tell rejected with ValueError)
+    pending = None  # (it, ns, outs) of the last accepted ask
+    for it, op in enumerate(case["ops"]):
+        name = op["op"]
+        where = f"op#{it} {name}"
+        base = name.replace("bad", "")
+        bad = name.endswith("bad")
+        can = {ph for ph in phases if base in legal[ph]}
+        mark = len(log)
+        before_a = _contents(archive)
+        before_r = _contents(result) if result is not None else None
+        exc, ret = None, None
+        ref_a = ref_r = None
+        row = w = None
+        if base in ("ask", "askdqd"):
+            for s, n in zip(spies, op["ns"]):
+                s.next_n, s.cur_it = n, it
+            try:
+                ret = sched.ask() if base == "ask" else sched.ask_dqd()
+            except Exception as e:  # pylint: disable=broad-except
+                exc = e
+        else:
+            pit, ns, outs = pending if pending is not None else (0, [0] * k, [np.zeros((0, SOLDIM))] * k)
+            dqd = base == "telldqd"
+            total = sum(ns)
+            starts = np.concatenate([[0], np.cumsum(ns)]).astype(int)
+            full = np.concatenate(outs, axis=0).reshape(-1, SOLDIM)
+            ev = large_eval(op["seed"], pit, total, with_obj)
+            args = {"objective": ev["objective"], "measures": ev["measures"]}
+            if case["extra"]:
+                args["tag"], args["vec"] = ev["tag"], ev["vec"]
+            jac = ev["jacobian"]
+            if bad and total == 0:
+                continue  # no row to put a bad value into
+            if bad:
+                w = op["which"] if (op["which"] == "jacobian" and dqd or args.get(op["which"]) is not None) \
+                    else "measures"
+                border = [b_ for b_ in (64, 256, 1024, 4096, 8192, 16384) if b_ < total] + \
+                    [int(x) for x in starts[1:-1]]
+                row = {"head": 0, "tail": total - 1, "any": int(op["u"] * total),
+                       "border": (border[int(op["u"] * len(border))] if border else total - 1)}[op["rowsel"]]
+                row = min(max(row, 0), total - 1)
+                if mode == "single" and w != "jacobian" and not SINGLE_MODE_LATE_ROW_FAULTS:
+                    row = 0
+                target = np.array(jac if w == "jacobian" else args[w], dtype=float)
+                target[(row,) + (0,) * (target.ndim - 1)] = np.nan if op["fault"] == "nan" else np.inf
+                if w == "jacobian":
+                    jac = target
+                else:
+                    args[w] = target
+            elif can:
+                # reference for an accepted tell: copies of the archives as they are before the call
+                memo = {id(log): log}
+                ref_a = copy.deepcopy(archive, memo)
+                ref_r = copy.deepcopy(result, memo) if result is not None else None
+                scratch = []
+                for a_ in (ref_a, ref_r):
+                    if a_ is not None:
+                        a_._log = scratch  # pylint: disable=protected-access
+            try:
+                with warnings.catch_warnings():
+                    warnings.simplefilter("ignore")
+                    if dqd:
+                        sched.tell_dqd(jacobian=jac, **args)
+                    else:
+                        sched.tell(**args)
+            except Exception as e:  # pylint: disable=broad-except
+                exc = e
+        got = exc_kind(exc)
+        new = log[mark:]
+        stat(f"large:call:{name}:{got}")
+        # ---- protocol (same readings as the lock-step strata) ----
+        if not can:
+            if got != "err runtime":
+                return Failure("oracle", f"{where}: out-of-order call did not raise RuntimeError ({got}); protocol "
+                               f"state(s) allowed by the history: {sorted(phases)}")
+        elif got == "err runtime":
+            if can == phases:
+                return Failure("oracle", f"{where}: in-order call raised {got}: {exc} (protocol state(s) "
+                               f"{sorted(phases)})")
+            phases = phases - can
+        elif bad:
+            if got != "err value":
+                return Failure("oracle", f"{where}: {op['fault']} in row {row} of {w} ({total} rows, batch sizes "
+                               f"{ns}) gave {got}, expected ValueError")
+            phases = can | {base}
+            stat(f"large:rejected-tell:{mode}:row{_bucket(row)}-of-{_bucket(total)}")
+        elif got != "ok":
+            return Failure("oracle", f"{where}: in-order call raised {got}: {exc}")
+        if got != "ok":
+            if [e for e in new if e["ev"] != "add" or got == "err runtime"]:
+                return Failure("oracle", f"{where}: rejected call ({got}"
+                               + (f"; {op['fault']} in row {row} of {w}, batch sizes {ns}" if bad else "")
+                               + ") still called "
+                               f"{sorted({(e['ev'], -1 if e.get('em') is None else e['em']) for e in new})}")
+            if not _same_contents(_contents(archive), before_a) or \
+                    (result is not None and not _same_contents(_contents(result), before_r)):
+                return Failure("oracle", f"{where}: rejected call ({got}"
+                               + (f"; {op['fault']} in row {row} of {w}, {total} rows, batch sizes {ns}" if bad else "")
+                               + ") changed archive contents")
+            continue
+        phases = {base}
+        if base in ("ask", "askdqd"):
+            asks = new
+            if [e["ev"] for e in asks] != ["ask"] * k or sorted(e["em"] for e in asks) != list(range(k)) or \
+                    any(e["dqd"] != (base == "askdqd") for e in asks):
+                return Failure("oracle", f"{where}: emitters not asked exactly once each: "
+                               f"{[(e['ev'], e.get('em')) for e in asks]}")
+            outs = [e["out"] for e in sorted(asks, key=lambda e: e["em"])]
+            want = np.concatenate(outs, axis=0)
+            if np.asarray(ret).shape != want.shape or not np.array_equal(ret, want):
+                return Failure("oracle", f"{where}: ask result ({np.asarray(ret).shape[0]} rows) is not the "
+                               f"concatenation, in emitter order, of what the emitters generated "
+                               f"({[len(o) for o in outs]} rows)")
+            pending = (it, [len(o) for o in outs], outs)
+            continue
+
+        # ---- an accepted tell: reference = one add of the whole batch on the copies of the archives ----
+        pending = None
+        stat(f"large:tell:{mode}:rows{_bucket(total)}")
+        stat("large:tell:rows-routed", total)
+        stat(f"large:tell:{'dqd' if dqd else 'plain'}:{'result' if result is not None else 'noresult'}")
+        told = dict(args)
+        with warnings.catch_warnings():
+            warnings.simplefilter("ignore")
+            if mode == "batch":
+                exp = {key: np.asarray(v) for key, v in ref_a.add(full, **told).items()}
+                if ref_r is not None:
+                    ref_r.add(full, **told)
+            else:
+                rets = []
+                for p in range(total):
+                    rowargs = {key: (None if v is None else v[p]) for key, v in told.items()}
+                    rets.append(ref_a.add_single(full[p], **rowargs))
+                    if ref_r is not None:
+                        ref_r.add_single(full[p], **rowargs)
+                exp = {key: np.asarray([r[key] for r in rets]) for key in (rets[0] if rets else {})}
+        adds = [e for e in new if e["ev"] == "add"]
+        tells = [e for e in new if e["ev"] == "tell"]
+        if len(adds) + len(tells) != len(new) or [id(e) for e in new[:len(adds)]] != [id(e) for e in adds]:
+            return Failure("oracle", f"{where}: an emitter was told before all rows were inserted")
+        if result is None and any(e["result"] for e in adds):
+            return Failure("oracle", f"{where}: result archive used though none was given")
+        # (a) every evaluated row exactly once into each archive, with its own values
+        for is_result, arch in ((False, archive), (True, result)):
+            if arch is None:
+                continue
+            mine = [e for e in adds if e["result"] == is_result]
+            got_s = np.concatenate([e["solution"].reshape(-1, SOLDIM) for e in mine], axis=0) if mine else full[:0]
+            aname = "result archive" if is_result else "archive"
+            em, pos = got_s[:, 0].astype(int), got_s[:, 2].astype(int)
+            ok = got_s.shape[0] == total and bool(np.all((em >= 0) & (em < k))) and bool(np.all(got_s[:, 1] == pit))
+            rows = (starts[np.clip(em, 0, k - 1)] + pos) if got_s.shape[0] else np.zeros(0, dtype=int)
+            if not ok or not np.array_equal(np.sort(rows), np.arange(total)) or \
+                    not np.array_equal(full[rows], got_s):
+                return Failure("oracle", f"{where}: the {aname} received {got_s.shape[0]} rows in {len(mine)} add "
+                               f"call(s); expected each of the {total} evaluated rows (the solutions the emitters "
+                               f"generated) exactly once")
+            for fname, fullv in told.items():
+                if fullv is None:
+                    if any(e["objective"] is not None for e in mine):
+                        return Failure("oracle", f"{where}: the {aname} received an objective though None was told")
+                    continue
+                vals = [e["objective"] if fname == "objective" else e["measures"] if fname == "measures" else
+                        e["fields"].get(fname) for e in mine]
+                if any(v is None for v in vals):
+                    return Failure("oracle", f"{where}: the {aname} did not receive {fname}")
+                dt = arch.dtypes[fname]
+                vals = np.concatenate([np.asarray(v).astype(dt) for v in vals], axis=0) if vals else \
+                    fullv[:0].astype(dt)
+                if vals.shape != fullv.shape or not np.array_equal(vals, fullv[rows].astype(dt)):
+                    return Failure("oracle", f"{where}: {fname} handed to the {aname} is not that of the rows it "
+                                   f"came with")
+        # (b) every emitter exactly its own rows of every array, and the feedback of the one add of the batch
+        who = [e["em"] for e in tells]
+        if len(who) != len(set(who)) or any(e["dqd"] != dqd for e in tells) or \
+                any(ns[e] > 0 and e not in who for e in range(k)) or any(not 0 <= e < k for e in who):
+            return Failure("oracle", f"{where}: emitters not told exactly once each: {who} (batch sizes {ns})")
+        for e in tells:
+            em = e["em"]
+            lo, hi = int(starts[em]), int(starts[em + 1])
+            if e["solution"].shape != outs[em].shape or not np.array_equal(e["solution"], outs[em]):
+                return Failure("oracle", f"{where}: emitter {em} was told {len(e['solution'])} solutions that are "
+                               f"not the {len(outs[em])} it generated")
+            arrays = [("objective", e["objective"]), ("measures", e["measures"])] + sorted(e["fields"].items())
+            if dqd:
+                arrays.append(("jacobian", e["jacobian"]))
+            if sorted(e["fields"]) != (["tag", "vec"] if case["extra"] else []):
+                return Failure("oracle", f"{where}: emitter {em} received extra fields {sorted(e['fields'])}")
+            for fname, arr in arrays:
+                fullv = jac if fname == "jacobian" else told[fname]
+                if fullv is None:
+                    if arr is not None:
+                        return Failure("oracle", f"{where}: emitter {em} received an objective though None was told")
+                    continue
+                if arr is None or not _same(arr, fullv[lo:hi]):
+                    return Failure("oracle", f"{where}: emitter {em} received {fname} that is not rows {lo}..{hi - 1} "
+                                   f"of what was told (batch sizes {ns})")
+            if total == 0:
+                if any(len(np.asarray(v)) != 0 for v in e["add_info"].values()):
+                    return Failure("oracle", f"{where}: emitter {em} received feedback rows though no row was "
+                                   "evaluated")
+                continue
+            if set(e["add_info"]) != set(exp):
+                return Failure("oracle", f"{where}: emitter {em} feedback keys {sorted(e['add_info'])} vs archive "
+                               f"feedback keys {sorted(exp)}")
+            for key, v in e["add_info"].items():
+                want = exp[key][lo:hi]
+                v = np.asarray(v)
+                if not _same(v, want, dtype=(mode == "batch")):
+                    nd = int(np.count_nonzero(v != want)) if v.shape == want.shape else -1
+                    first = int(np.flatnonzero((v != want).reshape(len(want), -1).any(axis=1))[0]) + lo \
+                        if nd > 0 else None
+                    return Failure("oracle", f"{where}: emitter {em} (rows {lo}..{hi - 1} of {total}, batch sizes "
+                                   f"{ns}, add_mode={mode}) received feedback '{key}' that is not the archive's add "
+                                   f"feedback for the evaluated batch (one add of the {total} rows on a copy of the "
+                                   f"archive as it was before the call): shape {v.shape} dtype {v.dtype} vs "
+                                   f"{want.shape} {want.dtype}, {nd} entries differ, first at batch row {first}")
+        # (c) contents of both archives = those after the one add
+        for arch, ref, aname in ((archive, ref_a, "archive"), (result, ref_r, "result archive")):
+            if arch is not None and not _same_contents(_contents(arch), _contents(ref)):
+                return Failure("oracle", f"{where}: contents of the {aname} after the call differ from those after "
+                               f"one add of the evaluated batch ({total} rows, batch sizes {ns}, add_mode={mode}) on "
+                               f"a copy of the {aname} as it was before the call")
+    return None
+
+
 def run(ctx):
     q = ctx.quick
     STATS.clear()
@@ -1080,6 +1448,8 @@ def _run(ctx, q):
     ctx.explore("bandit-routing", _bandit_gen, _bandit_run, ctx.n(60, 3000), time_budget=4 if q else 60)
     ctx.explore("several-schedulers", gen_multi, run_multi, ctx.n(60, 3000), nontrivial=nontrivial_multi,
                 time_budget=4 if q else 60)
+    ctx.explore("large-batch", gen_large, run_large, ctx.n(14, 400), nontrivial=nontrivial_large,
+                time_budget=10 if q else 90)
 
 
 def _bandit_gen(rng):
@@ -1094,7 +1464,8 @@ def _bandit_run(case):
     from props import c16
     f = c16.run_case(case)
     if f is not None and f.kind == "oracle" and (" was told " in f.what or " was asked " in f.what or "ask returned" in f.what
-                                                 or "ask result" in f.what or "asked [" in f.what):
+                                                 or "ask result" in f.what or "asked [" in f.what
+                                                 or "a solution nobody generated" in f.what):
         return Failure("oracle", "[BanditScheduler routing] " + f.what)
     return None
 
@@ -1102,4 +1473,6 @@ def _bandit_run(case):
 def replay(ctx, case):
     if case.get("multi"):
         return run_multi(case)
+    if case.get("large"):
+        return run_large(case)
     return _bandit_run(case) if case.get("bandit") else run_case(case)
